@@ -4,11 +4,12 @@ EXTENDS GenKeys
 O1 == 0 + (NKeyLens)
 O2 == O1 + (Len(Scalars)+NKeyRand)
 O3 == O2 + (NShapes)
-Count == O3
+Count == O3 + NKeyEnc
 ItemAt(g) ==
   IF g <= O1 THEN KeyLenAt(g - 0)
   ELSE IF g <= O2 THEN KeyAt(g - O1)
-  ELSE ShapeAt(g - O2)
+  ELSE IF g <= O3 THEN ShapeAt(g - O2)
+  ELSE KeyEncAt(g - O3)
 VARIABLE n
 INSTANCE GenBase
 =============================================================================
